@@ -3,6 +3,7 @@ import IpaVerif.Model.CircularBuf
 import IpaVerif.Model.QueueSpec
 import IpaVerif.Model.OrderingSender
 import IpaVerif.Model.SenderSpec
+import IpaVerif.Model.UnorderedReceiver
 /-! Line-protocol handlers for property C14 (model side). Import-free.
 
 `c14.circ <cap> <ws> <rs> <op,op,…>` with ops `w<hex>` (next().write), `t` (take), `c` (close);
@@ -148,6 +149,105 @@ def check (cap ws rs : Nat) (ops : List Op) (impl : String) : Option String := I
 
 end Sender
 
+/-! ### `c14.recv <sz> <cap> <op,…>`: ops `f<hex>` (a chunk becomes available; `f` = empty chunk),
+`e` (the stream ends), `r<t>.<i>` (poll `recv(i)` with waker `t`).  Response item: `<res>|<woken>`,
+`<res>` ∈ `-` (feed/end), `P`, `=<hex>` (Ready(Ok(msg))), `E<n>` (EndOfStream(n)); ends at `panic:<tag>`. -/
+namespace Recv
+open IpaVerif.UnorderedReceiver
+
+def parseOp (s : String) : Option Op :=
+  match s.toList with
+  | ['e'] => some .finish
+  | 'f' :: rest => if rest.isEmpty then some (.feed []) else (parseHexBytes (String.ofList rest)).map .feed
+  | 'r' :: rest =>
+    match (String.ofList rest).splitOn "." with
+    | [t, i] => do pure (.recv (← t.toNat?) (← i.toNat?))
+    | _ => none
+  | _ => none
+
+def parseOps (s : String) : Option (List Op) :=
+  if s = "-" then some [] else (s.splitOn ",").mapM parseOp
+
+def showRes : Res → String
+  | .none => "-"
+  | .pending => "P"
+  | .ok m => "=" ++ bytesHex m
+  | .eos n => s!"E{n}"
+
+def showItem : Except String Out → String
+  | .error e => s!"panic:{e}"
+  | .ok o => s!"{showRes o.res}|{Sender.showWoken o.woken}"
+
+def model (sz cap : Nat) (ops : List Op) : String :=
+  match State.new sz cap with
+  | .error e => s!"panic:{e}"
+  | .ok s =>
+    let t := run s ops
+    if t.isEmpty then "-" else String.intercalate ";" (t.map showItem)
+
+/-- Spec side, no ring, no spare: request `i` gets bytes `[i·sz, (i+1)·sz)` of everything fed so
+far, in index order; `EndOfStream` iff the stream ended short; a request whose turn has come is
+never left parked without a wake-up; a feed/end wakes the request that was waiting for data. -/
+def check (sz cap : Nat) (ops : List Op) (impl : String) : Option String := Id.run do
+  if cap < 2 then
+    return (if impl.startsWith "panic" then none else some "capacity < 2 accepted")
+  let items := if impl = "-" then [] else impl.splitOn ";"
+  let mut rest := items
+  let mut fed : List Nat := []
+  let mut ended := false
+  let mut next := 0
+  let mut parked : List (Nat × Nat) := []     -- (index, waker) whose last poll was Pending
+  let mut dataWait : Option Nat := none       -- waker of the poll of `next` that found no data
+  for op in ops do
+    match rest with
+    | [] => return some "trace shorter than the schedule"
+    | it :: more =>
+      rest := more
+      if it.startsWith "panic" then
+        match op with
+        | .recv _ i => if i < next then return none else return some s!"unexpected panic at recv({i})"
+        | _ => return some "unexpected panic"
+      match it.splitOn "|" with
+      | [res, wk] =>
+        let some woken := Sender.parseWoken wk | return some "unparsable woken list"
+        match op with
+        | .feed c =>
+          fed := fed ++ c
+          if res ≠ "-" then return some "feed result"
+          if let some w := dataWait then
+            if !woken.contains w then return some s!"lost wake-up: waker {w} waits for stream data"
+          dataWait := none
+        | .finish =>
+          ended := true
+          if let some w := dataWait then
+            if !woken.contains w then return some s!"lost wake-up: waker {w} waits for the end of stream"
+          dataWait := none
+        | .recv t i =>
+          if i < next then return some s!"recv({i}) after it was fulfilled must panic"
+          let want :=
+            if i > next then "P"
+            else if (i + 1) * sz ≤ fed.length then "=" ++ bytesHex ((fed.drop (i * sz)).take sz)
+            else if ended then s!"E{i}" else "P"
+          if res ≠ want then return some s!"recv({i}) returned {res}, expected {want}"
+          if res = "P" then
+            parked := (i, t) :: parked.filter (fun p => p.1 != i)
+            if i = next then dataWait := some t
+          else
+            parked := parked.filter (fun p => p.1 != i)
+            if res.startsWith "=" then next := next + 1
+        parked := parked.filter (fun p => !woken.contains p.2)
+        -- a request whose turn has come must not be left parked (unless it waits for data itself)
+        for p in parked do
+          if p.1 = next ∧ dataWait ≠ some p.2 ∧ (next + 1) * sz ≤ fed.length then
+            return some s!"lost wake-up: request {p.1} (waker {p.2}) is next but was never woken"
+          if p.1 = next ∧ dataWait = none then
+            return some s!"lost wake-up: request {p.1} (waker {p.2}) is next but was never woken"
+      | _ => return some s!"unparsable item {it}"
+  if !rest.isEmpty then return some "trace longer than the schedule"
+  return none
+
+end Recv
+
 def handle (toks : List String) : Option String :=
   match toks with
   | ["c14.circ", cap, ws, rs, ops] => some <| Id.run do
@@ -162,6 +262,11 @@ def handle (toks : List String) : Option String :=
       let some rs := rs.toNat? | return "bad-request"
       let some ops := Sender.parseOps ops | return "bad-request"
       return Sender.model cap ws rs ops
+  | ["c14.recv", sz, cap, ops] => some <| Id.run do
+      let some sz := sz.toNat? | return "bad-request"
+      let some cap := cap.toNat? | return "bad-request"
+      let some ops := Recv.parseOps ops | return "bad-request"
+      return Recv.model sz cap ops
   | _ => none
 
 def oracle (toks : List String) (impl : String) : Option String :=
@@ -180,6 +285,13 @@ def oracle (toks : List String) (impl : String) : Option String :=
       let some rs := rs.toNat? | return "unknown"
       let some ops := Sender.parseOps ops | return "unknown"
       match Sender.check cap ws rs ops impl with
+      | none => return "holds"
+      | some why => return s!"fails {why}"
+  | ["c14.recv", sz, cap, ops] => some <| Id.run do
+      let some sz := sz.toNat? | return "unknown"
+      let some cap := cap.toNat? | return "unknown"
+      let some ops := Recv.parseOps ops | return "unknown"
+      match Recv.check sz cap ops impl with
       | none => return "holds"
       | some why => return s!"fails {why}"
   | _ => none
